@@ -69,7 +69,7 @@ def main():
     tuples = sorted(set(tuples))
     ck.bounds.append('sealAsm/openAsm on exactly-sized regions: %d (nonce,plaintext,aad,tag) length tuples (plaintext %d..%d, aad up to %d, nonce 1..%d, tag 12..16); block kernels X1..X16 in and out of place; copyAsm 0..40; key expansion' % (
         len(tuples), pls[0], pls[-1], als[-1], nls[-1]))
-    ck.outside.append('lengths above 1100 bytes; arm64 routines (no NEON semantics, no arm64 host): only the amd64 assembly and the Go glue are covered')
+    ck.outside.append('lengths above 1100 bytes')
     for (nl, pl, al, ts) in tuples:
         nonce = [rng.randrange(256) for _ in range(nl)]
         pt = [rng.randrange(256) for _ in range(pl)]
@@ -283,6 +283,18 @@ func TestVerifReplay(t *testing.T) {
         ck.validated += len(vals)
     elif ok is False:
         ck.record('engine_validation', 'inconclusive', 'assembly interpreter and the real routine disagree: ' + (out or '')[-200:])
+    # ------------------------------------------------------------ arm64: Go glue (go/ssa GOARCH=arm64) + NEON leaf routines (arm64 listing)
+    import arm64lib
+    a64fails = {}
+    t_a64 = time.time()
+    try:
+        a64env = arm64lib.Env('c11')
+        n_a64 = arm64lib.c11(ck, a64env, lambda k, d, w=None: a64fails.setdefault(k, []).append((d, w)), thorough)
+    except (asmsym.AsmUnsupported, Unsupported, RuntimeError) as ex:
+        n_a64 = 0
+        a64fails.setdefault('a64:unsupported', []).append(('arm64 part not completed: %s' % ex, None))
+    if not arm64lib.report(ck, a64fails):
+        ck.record('arm64', 'proved', 'arm64: every access of every NEON leaf routine inside its region; the Go glue passes sufficiently large buffers and never panics on valid inputs (%d cases)' % n_a64, secs=time.time() - t_a64)
     ck.finish()
 
 
